@@ -37,6 +37,7 @@ def run(ctx):
     from . import findings3 as _f3
     _f3.append_layouts(ctx, 'R7.17')
     _f3.kind_of_appended_values(ctx, 'R7.18')
+    _f3.write_conversions(ctx, 'R7.22')
     _f3.open_routes(ctx, 'R7.19')
     _cs.general_rules(ctx, 'R7', ['writer.write', 'writer.write_simple', 'writer.write_multi', 'writer.partition_on_columns', 'writer.make_part_file', 'api.ParquetFile.write_row_groups', 'writer.write_common_metadata', 'writer.consolidate_categories', 'api.ParquetFile._dtypes', 'api.ParquetFile._set_attrs', 'writer.write_column', 'writer.make_row_group'])
     ar.single_pass_data_rule(ctx, 'R7.5')
